@@ -93,6 +93,31 @@ def main():
         open(os.path.join(CORPUS, 'synth', 'z%03d.ttf' % i), 'wb').write(f)
         synth.append(('synthz%03d' % i, f, case))
         nz += 1
+    # feature / language / name-table rich fonts (C18's strategy): seeds for the Feat / Sill / name parsers
+    try:
+        from hypothesis import given, settings, seed as hseed, HealthCheck, Phase
+        import props.c18 as c18
+        fspecs = []
+
+        @hseed(4242)
+        @settings(max_examples=10, database=None, deadline=None, suppress_health_check=list(HealthCheck), phases=[Phase.generate])
+        @given(c18.feat_strategy())
+        def tf(fs):
+            fspecs.append(fs)
+        tf()
+        nfz = 0
+        for i, fs_ in enumerate(fspecs):
+            if len(fs_['feats']) > 16:
+                continue
+            try:
+                f = fontsynth.build_font(c18.spec_of(fs_))
+            except (ValueError, KeyError, struct.error):
+                continue
+            open(os.path.join(CORPUS, 'synth', 'f%03d.ttf' % i), 'wb').write(f)
+            synth.append(('synthf%03d' % i, f, dict(probes=[dict(text=[97, 98, 97])])))
+            nfz += 1
+    except ImportError:
+        pass
     nseed = 0
     for name, f, case in synth:
         txt = bytes((c - 0x61) % 26 for pr in case['probes'] for c in pr['text'])[:48]
